@@ -26,6 +26,10 @@ CLAIMED = {
  "C05": dict(cat="model_checking", ref="DESIGN.md 5 (C05), 3.2", text="TLC checks OneFetchPerFlight / FollowersAccounted / NoOrphanFollowers over all arrival orders, answers and disconnects of 3 clients; replayed histories hold the origin so that clients pile up in one flight, disconnect leaders and followers, and TLC judges the number of origin contacts, who waits, and every client's complete verified response.", note="3 clients in the model and replays; followers are observed by goroutine wait state inside singleflight", tech="TLA+ spec + TLC exhaustive check + replay judged by TLC trace validation"),
  "C06": dict(cat="model_checking", ref="DESIGN.md 5 (C06), 3.2", text="TLC explores revalidation histories (expiry, origin version/validator changes, 304/200/other answers); in replays the origin records the conditional headers it receives, classified against every validator it ever sent and against the client's own conditionals, and TLC judges them and the 304-renew / 200-replace / relay outcome.", note="a synthesised If-Modified-Since (store time) is accepted when the origin sent no Last-Modified", tech="TLA+ spec + TLC exhaustive check + replay judged by TLC trace validation"),
  "C09": dict(cat="fault_enumeration", ref="DESIGN.md 5 (C09), 3.2", text="Faults are steps of the spec placed by TLC: eviction at any point between lookup, revalidation answer and hand-over, another client's disconnect, origin errors; each placement is replayed and every client whose origin answer was good must receive it (status and verified body); cache-level refusals (full cache, empty body, failing source) are enumerated by the CacheStore families.", note="write failures of the cache directory are not injected at proxy level", tech="TLA+ spec: fault placements generated by TLC, replayed on the real proxy, judged by TLC trace validation"),
+ "C07": dict(cat="exploration", ref="DESIGN.md 5 (C07), 3.3", text="Bounded-exhaustive differential check against the TLA+ reference RangeSpec: every token string up to length 4/5 x 5 sizes through the real parser and slicer, outcome judged by TLC for membership in Allowed(prefix, tail, size).", note="bounded token language, function level (plus end-to-end sample when present); not a proof over all strings", tech="TLA+ reference semantics + TLC-enumerated inputs + differential run judged by TLC"),
+ "C02": dict(cat="exploration", ref="DESIGN.md 5 (C02), 3.4", text="Bounded-exhaustive partition check against the TLA+ reference CacheKey: enumerated wire targets are parsed by http.ReadRequest and keyed by the real MakeFromRequest; TLC judges that keys are shared exactly as the Strict/Loose identities demand.", note="bounded target language; percent-encoding variants and ''/'/' accepted either way", tech="TLA+ reference identity + TLC-enumerated targets + partition judged by TLC"),
+ "C16": dict(cat="exploration", ref="DESIGN.md 5 (C16), 3.9", text="Bounded-exhaustive enumeration of the small grammars (range-spec, cache-control/expires, PHC, byte-size) generated by TLC and fed to the real parsers under recover(); TLC judges no-panic (and acceptance of well-formed PHC).", note="no coverage-guided fuzzing; enumerable grammars only", tech="TLC-enumerated grammars + real parsers under recover(), judged by TLC"),
+ "C17": dict(cat="exploration", ref="DESIGN.md 5 (C17), 3.6", text="Size-string grammar/value/round-trip judged by TLC against the ByteSize reference over an enumerated string language and boundary byte counts; config save/load and override sequences judged against ConfigCells when present.", note="bounded languages; values above 2^31 compared via quotient/remainder", tech="TLA+ reference grammar + TLC-enumerated inputs + differential run judged by TLC"),
 }
 ENABLED = os.environ.get("VERIF_CLAIMS", "").split(",") if os.environ.get("VERIF_CLAIMS") else None
 
